@@ -10,6 +10,7 @@ From TK Require Import Knn_Spec CoverTree_Model.
 Import ListNotations.
 
 Section Total.
+Variable oc : bool.
 Variable d : dist.
 Variable K : nat.
 Variable au : bool -> ctree -> list ext -> bool.
@@ -30,17 +31,17 @@ Definition bn_t := ctree -> list dnode -> list ext -> bool -> list row * bool.
 
 Lemma bn_others_rows : forall (bn : bn_t) ub zero l,
   (forall chi, In chi l -> forall z u o, map fst (fst (bn chi z u o)) = lp chi) ->
-  forall acc okk, map fst (fst (bn_others d K au bn ub zero l acc okk)) = map fst acc ++ flat_map lp l.
+  forall acc okk, map fst (fst (bn_others oc d K au bn ub zero l acc okk)) = map fst acc ++ flat_map lp l.
 Proof.
   intros bn ub zero l. induction l as [|chi l IH]; intros Hbn acc okk.
   - cbn. now rewrite app_nil_r.
-  - change (bn_others d K au bn ub zero (chi :: l) acc okk) with
+  - change (bn_others oc d K au bn ub zero (chi :: l) acc okk) with
       (let nub := setter K (eadd (ub0 ub) (c_pard chi)) in
-       let '(nub1, nzero, ok1) := copy_zero_set d au chi nub zero okk in
+       let '(nub1, nzero, ok1) := copy_zero_set oc d au chi nub zero okk in
        let '(rows1, ok2) := bn chi nzero nub1 ok1 in
-       bn_others d K au bn ub zero l (acc ++ rows1) ok2).
+       bn_others oc d K au bn ub zero l (acc ++ rows1) ok2).
     cbv zeta.
-    destruct (copy_zero_set d au chi _ zero okk) as [[nub1 nzero] ok1].
+    destruct (copy_zero_set oc d au chi _ zero okk) as [[nub1 nzero] ok1].
     destruct (bn chi nzero nub1 ok1) as [rows1 ok2] eqn:E.
     rewrite IH by (intros c Hc; apply Hbn; now right).
     rewrite map_app. cbn [flat_map]. rewrite <- app_assoc. f_equal. f_equal.
@@ -48,13 +49,13 @@ Proof.
 Qed.
 
 Lemma brute_nearest_rows : forall n Q, (size Q <= n)%nat ->
-  forall zero ub ok, map fst (fst (brute_nearest d K au Q zero ub ok)) = lp Q.
+  forall zero ub ok, map fst (fst (brute_nearest oc d K au Q zero ub ok)) = lp Q.
 Proof.
   induction n as [|n IH]; intros Q Hs; [destruct Q; cbn [size] in Hs; lia|].
   intros zero ub ok. destruct Q as [p m pd sc ch]. destruct ch as [|c0 rest].
   - reflexivity.
   - cbn [brute_nearest]. cbn [size fold_right] in Hs.
-    destruct (brute_nearest d K au c0 zero ub ok) as [rows0 ok0] eqn:E0.
+    destruct (brute_nearest oc d K au c0 zero ub ok) as [rows0 ok0] eqn:E0.
     rewrite bn_others_rows.
     + rewrite lp_inner'. cbn [flat_map]. f_equal.
       pose proof (IH c0 ltac:(lia) zero ub ok) as H. rewrite E0 in H. exact H.
@@ -67,22 +68,22 @@ Definition rec_t := ctree -> list centry -> list dnode -> nat -> nat -> list ext
 Lemma ib_loop_rows : forall (rec : rec_t) ub cover zero cs ms l,
   (forall chi, In chi l -> forall cv z u o rows ok', rec chi cv z cs ms u o = Some (rows, ok') ->
       Permutation (map fst rows) (lp chi)) ->
-  forall acc okk rows ok', ib_loop d K au rec ub cover zero cs ms l acc okk = Some (rows, ok') ->
+  forall acc okk rows ok', ib_loop oc d K au rec ub cover zero cs ms l acc okk = Some (rows, ok') ->
   exists rows', rows = acc ++ rows' /\ Permutation (map fst rows') (flat_map lp l).
 Proof.
   intros rec ub cover zero cs ms l. induction l as [|chi l IH]; intros Hrec acc okk rows ok' E.
   - cbn in E. injection E as <- _. exists []. split; [now rewrite app_nil_r | constructor].
-  - change (ib_loop d K au rec ub cover zero cs ms (chi :: l) acc okk) with
+  - change (ib_loop oc d K au rec ub cover zero cs ms (chi :: l) acc okk) with
       (let nub := setter K (eadd (ub0 ub) (c_pard chi)) in
-       let '(nub1, nzero, ok1) := copy_zero_set d au chi nub zero okk in
-       let '(nub2, ncover, ok2) := copy_cover_sets d au chi nub1 cs (S ms - cs) cover ok1 in
+       let '(nub1, nzero, ok1) := copy_zero_set oc d au chi nub zero okk in
+       let '(nub2, ncover, ok2) := copy_cover_sets oc d au chi nub1 cs (S ms - cs) cover ok1 in
        match rec chi ncover nzero cs ms nub2 ok2 with
        | None => None
-       | Some (rows1, ok3) => ib_loop d K au rec ub cover zero cs ms l (acc ++ rows1) ok3
+       | Some (rows1, ok3) => ib_loop oc d K au rec ub cover zero cs ms l (acc ++ rows1) ok3
        end) in E.
     cbv zeta in E.
-    destruct (copy_zero_set d au chi _ zero okk) as [[nub1 nzero] ok1].
-    destruct (copy_cover_sets d au chi nub1 cs (S ms - cs) cover ok1) as [[nub2 ncover] ok2].
+    destruct (copy_zero_set oc d au chi _ zero okk) as [[nub1 nzero] ok1].
+    destruct (copy_cover_sets oc d au chi nub1 cs (S ms - cs) cover ok1) as [[nub2 ncover] ok2].
     destruct (rec chi ncover nzero cs ms nub2 ok2) as [[rows1 ok3]|] eqn:E3; [|discriminate].
     destruct (IH (fun c Hc => Hrec c (or_intror Hc)) _ _ _ _ E) as [rows' [-> Hp]].
     exists (rows1 ++ rows'). split; [now rewrite app_assoc|].
@@ -91,7 +92,7 @@ Proof.
 Qed.
 
 Lemma internal_batch_rows : forall fuel Q cover zero cs ms ub ok rows ok',
-  internal_batch d K au fuel Q cover zero cs ms ub ok = Some (rows, ok') ->
+  internal_batch oc d K au fuel Q cover zero cs ms ub ok = Some (rows, ok') ->
   Permutation (map fst rows) (lp Q).
 Proof.
   induction fuel as [|f IH]; intros Q cover zero cs ms ub ok rows ok' E; [discriminate|].
@@ -102,9 +103,9 @@ Proof.
     cbn [fst] in H. rewrite H. apply Permutation_refl.
   - destruct (Nat.leb (c_scale Q) cs && negb (Nat.eqb (c_scale Q) 100)).
     + destruct Q as [p m pd sc ch]. cbn [c_ch] in E. destruct ch as [|c0 rest]; [discriminate|].
-      destruct (ib_loop d K au (internal_batch d K au f) ub cover zero cs ms rest [] ok) as [[rows1 ok1]|] eqn:E1;
+      destruct (ib_loop oc d K au (internal_batch oc d K au f) ub cover zero cs ms rest [] ok) as [[rows1 ok1]|] eqn:E1;
         [|discriminate].
-      destruct (internal_batch d K au f c0 cover zero cs ms ub ok1) as [[rows0 ok2]|] eqn:E0; [|discriminate].
+      destruct (internal_batch oc d K au f c0 cover zero cs ms ub ok1) as [[rows0 ok2]|] eqn:E0; [|discriminate].
       injection E as <- _.
       destruct (ib_loop_rows _ ub cover zero cs ms rest
                   (fun c _ cv z u o r o' H => IH c cv z cs ms u o r o' H) _ _ _ _ E1) as [rows' [-> Hp]].
@@ -115,7 +116,7 @@ Proof.
 Qed.
 
 Lemma ct_query_rows_lemma : forall fuel top rows ok,
-  ct_query d K au fuel top = Some (rows, ok) -> Permutation (map fst rows) (lp top).
+  ct_query oc d K au fuel top = Some (rows, ok) -> Permutation (map fst rows) (lp top).
 Proof. intros fuel top rows ok E. unfold ct_query in E. apply (internal_batch_rows _ _ _ _ _ _ _ _ _ _ E). Qed.
 
 (* ---------- totality ---------- *)
@@ -207,7 +208,7 @@ Proof.
 Qed.
 
 Lemma copy_slot_incl : forall qc s cover ub ok ub' out ok',
-  copy_slot d au qc ub s cover ok = (ub', out, ok') ->
+  copy_slot oc d au qc ub s cover ok = (ub', out, ok') ->
   forall e, In e out -> exists e0, In e0 cover /\ snd (snd e0) = snd (snd e).
 Proof.
   intros qc s cover. induction cover as [|[es [edist en]] rest IH]; intros ub ok ub' out ok' E e He.
@@ -215,7 +216,7 @@ Proof.
   - cbn [copy_slot] in E. destruct (Nat.eqb es s).
     + destruct (shell edist (c_pard qc) _).
       * destruct (le_e (dd d (c_p qc) (c_p en)) _).
-        -- destruct (copy_slot d au qc _ s rest _) as [[ub2 out2] ok2] eqn:E2. injection E as _ <- _.
+        -- destruct (copy_slot oc d au qc _ s rest _) as [[ub2 out2] ok2] eqn:E2. injection E as _ <- _.
            destruct He as [<-|He].
            ++ exists (es, (edist, en)). split; [now left | reflexivity].
            ++ destruct (IH _ _ _ _ _ E2 e He) as [e0 [H0 H1]]. exists e0. split; [now right | assumption].
@@ -225,13 +226,13 @@ Proof.
 Qed.
 
 Lemma copy_cover_sets_bound : forall M qc cover n s ub ok ub' out ok',
-  copy_cover_sets d au qc ub s n cover ok = (ub', out, ok') -> cover_bound M cover -> cover_bound M out.
+  copy_cover_sets oc d au qc ub s n cover ok = (ub', out, ok') -> cover_bound M cover -> cover_bound M out.
 Proof.
   intros M qc cover n. induction n as [|n IH]; intros s ub ok ub' out ok' E Hc.
   - cbn [copy_cover_sets] in E. injection E as _ <- _. intros e [].
   - cbn [copy_cover_sets] in E.
-    destruct (copy_slot d au qc ub s cover ok) as [[ub1 out1] ok1] eqn:E1.
-    destruct (copy_cover_sets d au qc ub1 (S s) n cover ok1) as [[ub2 out2] ok2] eqn:E2.
+    destruct (copy_slot oc d au qc ub s cover ok) as [[ub1 out1] ok1] eqn:E1.
+    destruct (copy_cover_sets oc d au qc ub1 (S s) n cover ok1) as [[ub2 out2] ok2] eqn:E2.
     injection E as _ <- _. intros e He. apply in_app_or in He. destruct He as [He|He].
     + destruct (copy_slot_incl _ _ _ _ _ _ _ _ E1 e He) as [e0 [H0 H1]]. rewrite <- H1. now apply Hc.
     + apply (IH _ _ _ _ _ _ E2 Hc e He).
@@ -242,21 +243,21 @@ Definition rec_total (M cs : nat) (rec : rec_t) (chi : ctree) : Prop :=
 
 Lemma ib_loop_total : forall M (rec : rec_t) ub cover zero cs ms l,
   (forall chi, In chi l -> rec_total M cs rec chi) -> cover_bound M cover -> (ms <= M)%nat ->
-  forall acc okk, ib_loop d K au rec ub cover zero cs ms l acc okk <> None.
+  forall acc okk, ib_loop oc d K au rec ub cover zero cs ms l acc okk <> None.
 Proof.
   intros M rec ub cover zero cs ms l. induction l as [|chi l IH]; intros Hrec Hc Hm acc okk.
   - cbn. discriminate.
-  - change (ib_loop d K au rec ub cover zero cs ms (chi :: l) acc okk) with
+  - change (ib_loop oc d K au rec ub cover zero cs ms (chi :: l) acc okk) with
       (let nub := setter K (eadd (ub0 ub) (c_pard chi)) in
-       let '(nub1, nzero, ok1) := copy_zero_set d au chi nub zero okk in
-       let '(nub2, ncover, ok2) := copy_cover_sets d au chi nub1 cs (S ms - cs) cover ok1 in
+       let '(nub1, nzero, ok1) := copy_zero_set oc d au chi nub zero okk in
+       let '(nub2, ncover, ok2) := copy_cover_sets oc d au chi nub1 cs (S ms - cs) cover ok1 in
        match rec chi ncover nzero cs ms nub2 ok2 with
        | None => None
-       | Some (rows1, ok3) => ib_loop d K au rec ub cover zero cs ms l (acc ++ rows1) ok3
+       | Some (rows1, ok3) => ib_loop oc d K au rec ub cover zero cs ms l (acc ++ rows1) ok3
        end).
     cbv zeta.
-    destruct (copy_zero_set d au chi _ zero okk) as [[nub1 nzero] ok1].
-    destruct (copy_cover_sets d au chi nub1 cs (S ms - cs) cover ok1) as [[nub2 ncover] ok2] eqn:E2.
+    destruct (copy_zero_set oc d au chi _ zero okk) as [[nub1 nzero] ok1].
+    destruct (copy_cover_sets oc d au chi nub1 cs (S ms - cs) cover ok1) as [[nub2 ncover] ok2] eqn:E2.
     pose proof (copy_cover_sets_bound M _ _ _ _ _ _ _ _ _ E2 Hc) as Hnc.
     destruct (rec chi ncover nzero cs ms nub2 ok2) as [[rows1 ok3]|] eqn:E3.
     + apply IH; [intros c Hc'; apply Hrec; now right | assumption | assumption].
@@ -272,7 +273,7 @@ Qed.
 Lemma internal_batch_total : forall M fuel Q cover zero cs ms ub ok,
   leaf100_b Q = true -> cover_bound M cover -> (ms <= M)%nat ->
   (size Q + (S M - cs) < fuel)%nat ->
-  internal_batch d K au fuel Q cover zero cs ms ub ok <> None.
+  internal_batch oc d K au fuel Q cover zero cs ms ub ok <> None.
 Proof.
   intros M. induction fuel as [|f IH]; intros Q cover zero cs ms ub ok Hl Hc Hm Hf; [lia|].
   cbn [internal_batch].
@@ -283,12 +284,12 @@ Proof.
       cbn [leaf100_b] in Hl. apply Nat.eqb_eq in Hl. subst sc.
       apply andb_true_iff in Hsplit. destruct Hsplit as [_ H]. cbn in H. discriminate.
     + cbn [size fold_right] in Hf.
-      assert (Hrec : forall chi, In chi rest -> rec_total M cs (internal_batch d K au f) chi).
+      assert (Hrec : forall chi, In chi rest -> rec_total M cs (internal_batch oc d K au f) chi).
       { intros chi Hchi cv z ms' u o Hcv Hms'. apply IH; try assumption.
         - apply (leaf100_child p m pd sc c0 rest chi Hl). now right.
         - pose proof (size_child_le' chi rest Hchi). lia. }
-      destruct (ib_loop d K au (internal_batch d K au f) ub cover zero cs ms rest [] ok) as [[rows1 ok1]|] eqn:E1.
-      * destruct (internal_batch d K au f c0 cover zero cs ms ub ok1) as [[rows0 ok2]|] eqn:E0; [discriminate|].
+      destruct (ib_loop oc d K au (internal_batch oc d K au f) ub cover zero cs ms rest [] ok) as [[rows1 ok1]|] eqn:E1.
+      * destruct (internal_batch oc d K au f c0 cover zero cs ms ub ok1) as [[rows0 ok2]|] eqn:E0; [discriminate|].
         exfalso. revert E0. apply IH; try assumption.
         -- apply (leaf100_child p m pd sc c0 rest c0 Hl). now left.
         -- lia.
@@ -298,7 +299,7 @@ Proof.
 Qed.
 
 Lemma ct_query_total_lemma : forall top,
-  leaf100_b top = true -> ct_query d K au (ct_fuel top) top <> None.
+  leaf100_b top = true -> ct_query oc d K au (ct_fuel top) top <> None.
 Proof.
   intros top Hl. unfold ct_query. apply (internal_batch_total (maxscale top)); try assumption.
   - intros e [<-|[]]. cbn [snd]. lia.
